@@ -3,6 +3,7 @@ import OV.Model.C10Fallback
 import OV.Model.C10Names
 import OV.Model.C10Imports
 import OV.Model.C10Meta
+import OV.Model.C10History
 import OV.Drivers.Loop
 /-! Line-protocol driver for C10.
 
@@ -13,6 +14,8 @@ items:  `N <dflt01> <ver|_> <ref01> <op>`  node of the graph being read
 op:     `P:<name>` | `K:<s|v>:<i~i…>` | `GS:<mode|_>:<align|_>:<pad|_>` |
         `DFT:<axis|_>:<inv|_>:<one|_>:<len01>:<axisIn|_>:<rank>` |
         `GN:<hasX><hasS><hasB>:<g|_>:<eps|_>:<c>:<sLen>:<bLen>:<xVis><sVis><bVis>` (vis: m|s|k) | `CALL:<i>`
+`C10 hist <entry> <fb,fb,…> <target,target,…> <capi,capi,…> decl=… ai=… in=… init=… <item>*`
+        the same object converted again and again (`convertHistory`): one `branch=… err=… …` observation per call, ` || `-separated
 `C10 fallback in=<a,b|-> init=<name:size,…|->`  → `call_onnx_api` view, state after failure, state after success
 `C10 names used=<n,n,…|-> sizes=<k,k,…|->`  → visible `val_<n>` indices per replacement (`;`-separated)
 `C10 expand <g> <k> <s0~s1~…>`  → the Reshape[-1,1];Expand[1,k];Reshape[-1] image of a scale vector
@@ -190,6 +193,32 @@ def handle (args : List String) : String :=
       let capiF : CApi (NodeD DEPTH) := fun _ _ => if capiOk then some [{ leaf := { dflt := true, op := .plain "CAPI", version := none, refAttr := false }, bodies := [] }] else none
       let (m', err) := convertVersionApi e f t capiF m
       pure (s!"branch={branchOf e f t capiOk m} " ++ showModel m' err)
+    r.getD "bad-op"
+  | "hist" :: entry :: fbs :: targets :: capis :: decl :: ai :: ins :: inits :: items =>
+    let r : Option String := do
+      let e ← (match entry with | "ir" => some Entry.ir | "proto" => some .proto | "native" => some .native | _ => none)
+      let fs ← (fbs.splitOn ",").mapM (fun fb => match fb with | "none" => some Fallback.none | "yes" => some .yes | "no" => some .no | _ => none)
+      let ts ← (targets.splitOn ",").mapM (·.toNat?)
+      let cs ← (capis.splitOn ",").mapM (fun c => match c with | "ok" => some true | "fail" => some false | _ => none)
+      if fs.length != ts.length || cs.length != ts.length then none
+      let d ← (kv "decl" decl) >>= optNat
+      let a ← (kv "ai" ai) >>= optNat
+      let i ← kv "in" ins
+      let n ← kv "init" inits
+      let segs := splitFuncs items [] []
+      let mainTs ← parseNodes (segs.headD []) [[]]
+      let fns ← (segs.drop 1).mapM parseFunc
+      let m : Model (NodeD DEPTH) :=
+        { declared := d, aionnx := a, nodes := mainTs.map (toD (DEPTH + 1)),
+          funcs := fns, inputs := parseNames i, inits := parseNames n }
+      let capiF (ok : Bool) : CApi (NodeD DEPTH) := fun _ _ => if ok then some [{ leaf := { dflt := true, op := .plain "CAPI", version := none, refAttr := false }, bodies := [] }] else none
+      let calls : List (Call (NodeD DEPTH)) := (fs.zip (ts.zip cs)).map (fun c => (c.1, c.2.1, capiF c.2.2))
+      let states := historyStates e calls m
+      -- the state each call starts from (for the branch label)
+      let starts := m :: states.map (·.1)
+      let rows := (states.zip (starts.zip (fs.zip (ts.zip cs)))).map (fun x =>
+        s!"branch={branchOf e x.2.2.1 x.2.2.2.1 x.2.2.2.2 x.2.1} " ++ showModel x.1.1 x.1.2)
+      pure (" || ".intercalate rows)
     r.getD "bad-op"
   | ["fallback", ins, inits] =>
     let r : Option String := do
